@@ -95,6 +95,8 @@ def write_pc_cfg(path, c, emit, deviations=()):
         f.write(f"""SPECIFICATION Spec
 CONSTANTS
   Modes = {{"WebRtc", "Srtp", "Rtp"}}
+  Roles = {{"offerer", "answerer"}}
+  Cryptos = {{"ok", "none", "suite", "key"}}
   MaxLen = {c['MaxLen']}
   Ops = {setstr(c.get('Ops', PC_OPS))}
   Deviations = {setstr(deviations)}
@@ -130,7 +132,8 @@ CHECK_DEADLOCK FALSE
 def sig_of(d):
     """Structural classification of a divergence (never the property id alone)."""
     if d.get("level") == "pc":
-        return {"sub": "gate", "mode": "pc", "transport_mode": d.get("mode"), "rule": d.get("rule"), "field": d.get("field"),
+        return {"sub": "gate", "mode": "pc", "transport_mode": d.get("mode"), "role": d.get("role"), "crypto": d.get("crypto"),
+                "rule": d.get("rule"), "field": d.get("field"),
                 "sink": d.get("sink"), "kind": d.get("kind"), "keyed": d.get("keyed")}
     return {"sub": "gate", "mode": d.get("mode", "seq"), "rule": d.get("rule"), "op": d.get("origin_op") or d.get("op"), "field": d.get("field"),
             "tr": d.get("tr"), "sink": d.get("sink"),
@@ -490,7 +493,8 @@ def run(tier):
                 if o["mode"] != "Rtp":
                     nontriv.add(hashlib.blake2b(line.encode(), digest_size=8).digest())
                 if i % 17 == 3 and len(ck.cov["samples"]) < 13:
-                    ck.cov["samples"].append(f"connection, mode {o['mode']}: " + " ".join(o["pre"] + [o["act"]]) +
+                    ck.cov["samples"].append(f"connection, mode {o['mode']} ({o.get('role')}, a=crypto {o.get('crypto')}): " +
+                                             " ".join(o["pre"] + [o["act"]]) +
                                              f" expects wire={o['exp'][0] or '-'} delivered={o['exp'][1]}")
         ck.notes.append(f"{label}: {res['counts']['EDGE']} connection scenarios, {summ['steps']} steps, {summ['datagrams']} media "
                         f"datagrams of the observed endpoint classified ({summ['protected']} protected, {summ['clear']} clear - "
